@@ -7,14 +7,14 @@ Import ListNotations.
 Local Open Scope Z_scope.
 
 Section Envelope.
-Variables (c : cfg) (sh : share) (vid role h rho ld v fdlen nrc : N) (p2p : bool) (rawlen dlen pkprefix : N).
+Variables (c : cfg) (sh : share) (vid role h rho ld v fdlen nrc : N) (rcfull : bool) (nrcj npj : N) (p2p : bool) (rawlen dlen pkprefix : N).
 
 Definition henv (t s : N) : envelope :=
   {| e_p2p := p2p; e_raw_len := rawlen; e_topic := Some (pkprefix mod subnetsCount)%N;
      e_op_found := true; e_op_key_ok := true; e_rsa_ok := true; e_ssv_decode_ok := true;
      e_data_len := dlen; e_domain := c_domain c; e_pk_prefix := pkprefix; e_role := role;
      e_pk_deser_ok := true; e_vid := vid; e_msg_type := ssvConsensusMsgType;
-     e_body := BConsensus (hmsg h rho v fdlen nrc t s) |}.
+     e_body := BConsensus (hmsg h rho v fdlen nrc rcfull nrcj npj t s) |}.
 
 Hypothesis W : wf_cfg c.
 Hypothesis Hshare : get_share c vid = Some sh.
@@ -51,7 +51,7 @@ Proof.
             exists vs', validate_ssv c vs recv (henv t s) verifier = (Accept, vs') /\
                         inv h rho v ((t, s) :: sent) (get_cs key vs')).
   { intros verifier Hv.
-    destruct (honest_message_accepted c sh role h rho ld v fdlen nrc Hrole Hvalid Hmeta Hleader Hrr Hfd Hrho1 Hrho6
+    destruct (honest_message_accepted c sh role h rho ld v fdlen nrc rcfull nrcj npj Hrole Hvalid Hmeta Hleader Hrr Hfd Hrho1 Hrho6
                 recv verifier sent (get_cs key vs) t s Ht1 Ht2 Hv I Hh Hn) as (cs' & Ev & I').
     unfold validate_ssv. cbn [henv e_data_len e_domain e_role e_pk_deser_ok e_vid e_msg_type e_body].
     destruct (N.eqb_spec dlen 0); [contradiction|].
